@@ -194,6 +194,17 @@ func Atlas() []*spec.Program {
 		root := M("HasEmbC", nil, F("Own", "string"), F("EmbC", "msg:EmbC", embed()))
 		out = append(out, prog("a_embednc", convProps, baseConfig("HasEmbC"), nil, leaf, emb, root))
 	}
+	// --- attribute names that coincide with names the generator uses itself (map entry fields key/value,
+	// the placeholder "active") next to maps and lists of messages
+	{
+		leaf := M("Leaf", nil, F("Str", "string"), F("Num", "int32"))
+		other := M("Other", nil, F("Flag", "bool"), F("Note", "string"), F("Value", "msg:Leaf"))
+		root := M("ValueNames", nil,
+			F("Active", "bool"), F("Key", "string"), F("Value", "msg:Leaf"), F("Entry", "msg:Leaf", nn()),
+			F("Items", "map:msg:Other"), F("ItemsV", "map:msg:Other", nn()), F("Others", "msg:Other", rep()), F("Values", "map:string"),
+			F("Elems", "string", rep()), F("Attrs", "map:int64"))
+		out = append(out, prog("a_valuenames", convProps, baseConfig("ValueNames", "Other"), nil, leaf, other, root))
+	}
 	// --- embedded messages that declare a oneof (holder promoted through the embedding)
 	{
 		br := M("Br", nil, F("S", "string"))
